@@ -414,6 +414,41 @@ Proof.
     + subst u. contradiction.
 Qed.
 
+(** ---- in-place writes to a node state ---- *)
+Lemma write_flag_names m n f b : names (write_flag m n f b) = names m.
+Proof.
+  unfold names, write_flag. simpl. rewrite map_map. apply map_ext.
+  intros [k st]. simpl. destruct (String.eqb k n); reflexivity.
+Qed.
+
+Theorem write_flag_closed m n f b : Closed m -> Closed (write_flag m n f b).
+Proof. intros [A B C]. constructor; rewrite ?write_flag_names; simpl; auto. Qed.
+
+(** the write changes exactly the named flag of exactly the named node; edges and observed data stay *)
+Theorem write_flag_spec m n f b k :
+  lookup k (s_nodes (write_flag m n f b))
+  = (if String.eqb k n then option_map (fun st => set_flag st f b) (lookup k (s_nodes m)) else lookup k (s_nodes m))
+  /\ s_edges (write_flag m n f b) = s_edges m /\ s_observed (write_flag m n f b) = s_observed m.
+Proof.
+  split; [|split; reflexivity]. unfold write_flag. simpl.
+  induction (s_nodes m) as [|[a st] r IH]; simpl; [destruct (String.eqb k n); reflexivity|].
+  destruct (String.eqb a n) eqn:Ean; simpl; destruct (String.eqb k a) eqn:Eka.
+  - apply String.eqb_eq in Eka, Ean. subst. rewrite String.eqb_refl. reflexivity.
+  - exact IH.
+  - apply String.eqb_eq in Eka. subst. rewrite Ean. reflexivity.
+  - exact IH.
+Qed.
+
+Theorem set_flag_spec st f b :
+  s_output (set_flag st f b) = s_output st /\ s_has_op (set_flag st f b) = s_has_op st
+  /\ s_stochastic (set_flag st f b) = s_stochastic st /\ s_observable (set_flag st f b) = s_observable st
+  /\ s_opid (set_flag st f b) = s_opid st
+  /\ s_uses_meta (set_flag st f b) = (match f with FUsesMeta => b | _ => s_uses_meta st end)
+  /\ s_uses_batch_size (set_flag st f b) = (match f with FUsesBatchSize => b | _ => s_uses_batch_size st end)
+  /\ s_uses_observed (set_flag st f b) = (match f with FUsesObserved => b | _ => s_uses_observed st end)
+  /\ s_parameter (set_flag st f b) = (match f with FParameter => b | _ => s_parameter st end).
+Proof. repeat split. Qed.
+
 (** ---- one edit step, and scripts over several live models ---- *)
 Definition step_guard (m : snet) (o : eop) : bool :=
   match o with
@@ -425,7 +460,7 @@ Definition step_guard (m : snet) (o : eop) : bool :=
 Theorem step_model_closed m o m' :
   Closed m -> step_guard m o = true -> step_model m o = Ok m' -> Closed m'.
 Proof.
-  intros Hc Hg H. destruct o as [h n st parents obs|h p c par|h n|h n u|h ps|h n v|h|h]; simpl in H, Hg.
+  intros Hc Hg H. destruct o as [h n st parents obs|h p c par|h n|h n u|h ps|h n v|h|h|h n f b]; simpl in H, Hg.
   - destruct (add_node m n st) as [m1|] eqn:Ea; simpl in H; [|discriminate].
     destruct (add_node_closed _ _ _ _ Hc Ea) as [Hc1 [Hn1 Hfresh]].
     destruct (fold_left _ parents (Ok m1)) as [m2|] eqn:Ef; simpl in H; [|discriminate].
@@ -443,6 +478,8 @@ Proof.
     intros k v' Hk. apply In_set in Hk. destruct Hk as [->|Hk]; [exact Hg | eapply C; eauto].
   - inversion H; subst. exact Hc.
   - inversion H; subst. exact Hc.
+  - unfold set_node_flag in H. destruct (has n (s_nodes m)); [|discriminate]. inversion H; subst.
+    now apply write_flag_closed.
 Qed.
 
 Fixpoint guards_hold (ms : list snet) (ops : list eop) : bool :=
